@@ -199,6 +199,9 @@ class Run:
         return inits, edges
 
     def _trace_run(self, module, cfg, trace_path, overrides, timeout, dfs):
+        # validation is linear in the trace length: scale the time limit with it (a loaded machine is 3-4x slower)
+        nlines = sum(1 for _ in open(trace_path))
+        timeout = max(timeout, 300 + nlines // 40)
         return self.tlc(module, cfg, overrides, 1, timeout, extra={"trace.ndjson": trace_path}, dfs=dfs)
 
     def tlc_trace(self, module, cfg, trace_path, overrides=None, timeout=300, dfs=True):
